@@ -273,7 +273,12 @@ def build_dec(nid, k, child, ctx, name):
         return D.Timeout(name=name, child=child, duration=float(int(parts[1])))
     if kind == "guard":
         gid = int(parts[1])
-        return D.EternalGuard(name=name, child=child, condition=lambda: ctx.guards.get(gid, True))
+        def condition(invert=False):
+            # a condition may have optional parameters of its own; it is called without arguments (only a parameter
+            # named `blackboard` asks for the guard's blackboard client)
+            v = ctx.guards.get(gid, True)
+            return (not v) if invert else v
+        return D.EternalGuard(name=name, child=child, condition=condition)
     if kind == "oneshot":
         pol = py_trees.common.OneShotPolicy.ON_COMPLETION if parts[1] == "1" \
             else py_trees.common.OneShotPolicy.ON_SUCCESSFUL_COMPLETION
